@@ -627,3 +627,44 @@ pub fn blanket_program(rng: &mut Rng) -> (String, Vec<String>, Vec<String>) {
     }
     (s, ex, gr)
 }
+
+/// Impls with long where-clause lists mixing closed conditions (`A: M1`), conditions that pin an
+/// impl parameter (a trait with one impl) and conditions that leave it open (a trait with several
+/// impls): the order of the where-clauses decides the order in which the recursive solver's
+/// `Fulfill` sees informative, uninformative and ambiguous obligations.  One item per line.
+pub fn wc_rich_items(rng: &mut Rng) -> (Vec<String>, Vec<String>) {
+    let nm = 3 + rng.usize_below(2);
+    let mut items: Vec<String> = vec!["struct A {}".into(), "struct B {}".into(), "struct S<T> {}".into(), "trait Foo {}".into()];
+    for i in 0..nm {
+        items.push(format!("trait M{} {{}}", i));
+        // impls of Mi: for A, for B, or both; rarely none
+        match rng.weighted(&[4, 3, 4, 1]) {
+            0 => items.push(format!("impl M{} for A {{}}", i)),
+            1 => items.push(format!("impl M{} for B {{}}", i)),
+            2 => {
+                items.push(format!("impl M{} for A {{}}", i));
+                items.push(format!("impl M{} for B {{}}", i));
+            }
+            _ => {}
+        }
+    }
+    let nimpl = 1 + rng.usize_below(2);
+    for _ in 0..nimpl {
+        let k = 3 + rng.usize_below(2);
+        let mut wcs: Vec<String> = vec![];
+        for _ in 0..k {
+            let m = rng.usize_below(nm);
+            let w = match rng.weighted(&[6, 2, 2]) {
+                0 => format!("T: M{}", m),
+                1 => format!("A: M{}", m),
+                _ => format!("B: M{}", m),
+            };
+            if !wcs.contains(&w) {
+                wcs.push(w);
+            }
+        }
+        items.push(format!("impl<T> Foo for S<T> where {} {{}}", wcs.join(", ")));
+    }
+    let goals = vec!["exists<X> { S<X>: Foo }".to_string(), "S<A>: Foo".to_string(), "S<B>: Foo".to_string()];
+    (items, goals)
+}
